@@ -2426,7 +2426,7 @@ FROM (
         child_sqls = []
         for child in node.children:
             child_sql = self.visit(child)
-            if not child_sql.strip().upper().startswith("SELECT"):
+            if not child_sql.strip().upper().startswith(("SELECT", "WITH")):
                 child_sql = (
                     f"SELECT * FROM "
                     f"{quote_name(child.value if hasattr(child, 'value') else child_sql)}"
